@@ -56,7 +56,26 @@ sys.exit(1 if bad else 0)
 PROMOTE_REPLAY = "import sys\nsys.path.insert(0, '/verif')\nfrom replay_lib.c12_native import main\nmain()\n"
 
 
+NAN_TWICE = '''
+import sys
+import onnx_ir as ir
+from onnxscript._internal import builder
+bad = 0
+for lits in ((float("nan"), float("nan")), (float("inf"), float("inf")), (0.0, -0.0), (1, True)):
+    g = ir.Graph([], [], nodes=[], opset_imports={"": 18}, name="g")
+    x = ir.Value(name="x", type=ir.TensorType(ir.DataType.FLOAT), shape=ir.Shape([2])); g.inputs.append(x)
+    op = builder.GraphBuilder(g).op
+    try:
+        op.Mul(op.Add(x, lits[0]), lits[1])
+    except Exception as e:
+        print(f"op.Mul(op.Add(x, {lits[0]!r}), {lits[1]!r}) in one GraphBuilder raises {type(e).__name__}: {str(e)[:100]}"); bad += 1
+sys.exit(1 if bad else 0)
+'''
+
+
 def replay(ob):
+    if "requesting_two_literals_never_raises" in ob["name"]:
+        return NAN_TWICE
     if "any_length" in ob["name"] or "cast_inputs.loop" in ob["name"]:
         return PROMOTE_REPLAY
     if "constant_cache.mixed" in ob["name"]:
